@@ -9,4 +9,4 @@ git apply patch.diff || { echo "patch does not apply"; exit 2; }
 echo "== demo WITH change"; PYTHONPATH=$wt timeout 900 /venv/bin/python demo.py > $wt/.demo_with.txt 2>&1; echo "exit=$?"
 git diff --stat -- lnn | tail -1
 echo "== test suite WITH change"
-OMP_NUM_THREADS=4 /venv/bin/python -m pytest -q -p no:cacheprovider --timeout=900 2>&1 | tail -1
+OMP_NUM_THREADS=4 /venv/bin/python -m pytest -q -p no:cacheprovider --timeout=900 -n ${VERIFY_N:-4} 2>&1 | tail -1
